@@ -25,6 +25,8 @@ static inline std::vector<MsgSpec> msg_catalogue() {
   v.push_back({"l1b", "s7@src.example", {"lk@a.com"}, B("l1b"), 1000});
   v.push_back({"r1b", "s8@src.example", {"rk@far.example"}, B("r1b"), 1000});
   v.push_back({"v1", "s9@src.example", {"info@virt.example", "x@sub.virt.example"}, B("v1"), 1000});
+  v.push_back({"mix5", "s11@src.example", {"ma@a.com", "mb@far.example", "mc@virt2.example", "md@virt.example", "me@A.COM"}, B("mix5"), 1000});
+  v.push_back({"mix5b", "s12@src.example", {"na@far.example", "nb@a.com", "nc@FAR.example", "nd@virt2.example", "ne@far2.example"}, B("mix5b"), 1000});
   v.push_back({"l6", "s10@src.example", {"m1@a.com", "m2@a.com", "m3@a.com", "m4@a.com", "m5@a.com", "m6@a.com"}, B("l6"), 1000});
   return v;
 }
@@ -69,6 +71,7 @@ struct DaemonScenario : Scenario {
   std::vector<Delivery> inflight; int serial = 0;
   size_t tick_pos = std::string::npos, tick_end = 0; int tick_cnt = 0;
   bool catchall = false;         // control/virtualdomains also has a catch-all entry and an exception
+  bool hupedit = false, config_b = false;   // C10: every HUP is preceded by an edit of locals/virtualdomains (far.example becomes local, virt2.example virtual) / back
   bool expect_leftovers = false; // failed or hung injections legitimately leave S2/S3 files that are collected after 36 hours
   bool mark_check_off = false;   // after an injected failure inside the daemon the report/mark alignment is unknown until it restarts
   std::deque<std::pair<long, std::string>> markfifo[2];   // K/D reports sent and not yet followed by the daemon's mark write, per channel
@@ -91,7 +94,7 @@ struct DaemonScenario : Scenario {
     while (i < ms.size()) { size_t j = ms.find('+', i); if (j == std::string::npos) j = ms.size(); std::string n = ms.substr(i, j - i); for (auto &x : cat) if (x.name == n) tosend.push_back(x); i = j + 1; }
     inject_mode = c.get("inject", "seq");
     conc_l = c.geti("concl", 2); conc_r = c.geti("concr", 2); announce = c.geti("announce", 120); lifetime = c.geti("lifetime", 604800);
-    catchall = c.geti("catchall", 0);
+    catchall = c.geti("catchall", 0); hupedit = c.geti("hupedit", 0);
     max_ticks = c.geti("maxticks", 60); max_restarts = c.geti("maxrestarts", 3); clock_frozen = c.geti("frozenclock", 0);
   }
   bool M(const char *m) { return mon.count(m) > 0; }
@@ -101,8 +104,7 @@ struct DaemonScenario : Scenario {
   void setup(World &w) override {
     QmailEnv::build(w, cfg);
     Kernel &k = w.k;
-    k.put_file("/var/qmail/control/locals", "a.com\n");
-    k.put_file("/var/qmail/control/virtualdomains", std::string("virt.example:vuser\n.virt.example:vsub\n") + (catchall ? ":catchall\nfar2.example:\n" : ""));
+    write_routing_controls(w);
     k.put_file("/var/qmail/control/concurrencylocal", std::to_string(conc_l) + "\n");
     k.put_file("/var/qmail/control/concurrencyremote", std::to_string(conc_r) + "\n");
     k.put_file("/var/qmail/control/queuelifetime", std::to_string(lifetime) + "\n");
@@ -152,11 +154,19 @@ struct DaemonScenario : Scenario {
   Proc *proc(World &w, int pid) { for (auto &pp : w.procs) if (pp && pp->vpid == pid && pp->st != P_REAPED) return pp.get(); return nullptr; }
   bool alive(World &w, int pid) { Proc *p = proc(w, pid); return p && p->st == P_PENDING; }
 
+  void write_routing_controls(World &w) {
+    Kernel &k = w.k;
+    k.put_file("/var/qmail/control/locals", std::string("a.com\n") + (config_b ? "far.example\n" : ""));
+    k.put_file("/var/qmail/control/virtualdomains", std::string("virt.example:vuser\n.virt.example:vsub\n") + (config_b ? "virt2.example:v2\n" : "") + (catchall ? ":catchall\nfar2.example:\n" : ""));
+  }
   // ------------------------------------------------------------------ ledger
   static std::vector<std::string> split0(const std::string &s) { std::vector<std::string> v; size_t i = 0; while (i < s.size()) { size_t j = s.find('\0', i); if (j == std::string::npos) break; v.push_back(s.substr(i, j - i)); i = j + 1; } return v; }
   virtual std::string route(const std::string &rcpt, int *chan) {   // model of the scenario's fixed configuration (locals a.com; two virtual domains)
     size_t at = rcpt.rfind('@'); std::string dom = at == std::string::npos ? "me.example" : rcpt.substr(at + 1); std::string a = at == std::string::npos ? rcpt + "@me.example" : rcpt;
+    for (auto &ch : dom) ch = tolower((unsigned char) ch);   // matching ignores case; the address itself is kept as written
     if (dom == "a.com") { *chan = 0; return a; }
+    if (config_b && dom == "far.example") { *chan = 0; return a; }
+    if (config_b && dom == "virt2.example") { *chan = 0; return "v2-" + a; }
     if (dom == "virt.example") { *chan = 0; return "vuser-" + a; }
     if (dom.size() > 13 && dom.compare(dom.size() - 13, 13, ".virt.example") == 0) { *chan = 0; return "vsub-" + a; }
     if (catchall && dom != "far2.example") { *chan = 0; return "catchall-" + a; }   // ":catchall" entry; "far2.example:" is the documented exception
@@ -428,7 +438,8 @@ struct DaemonScenario : Scenario {
   std::string stripped(const RcptState &r) { return r.addr; }   // bounce names the address without the virtual prefix = the envelope address
   void on_clean_unlink(World &w, const Step &st) {
     long n = atol(st.path.c_str() + st.path.rfind('/') + 1);
-    if (st.path.compare(0, 5, "todo/") == 0) { MsgState *m = find_msg(n); if (m) { m->preprocessed = true; w.counters["messages_preprocessed"]++; if (M("C10")) check_partition(w, *m); } return; }
+    if (st.path.compare(0, 5, "todo/") == 0) { MsgState *m = find_msg(n); if (m) { if (hupedit && !m->preprocessed) for (auto &r : m->rc) r.routed = route(r.addr, &r.chan);   /* routing is decided when the message is preprocessed, with the control files read last */
+        m->preprocessed = true; w.counters["messages_preprocessed"]++; if (M("C10")) check_partition(w, *m); } return; }
     // qmail-clean removing mess/N: only legitimate when info and todo are gone
     if (st.path.compare(0, 5, "mess/") != 0) return;
     if (M("C02") && (w.k.exists(QmailEnv::qpath("info", n, true)) || w.k.exists(QmailEnv::qpath("todo", n, false)))) w.violation("C02:mess-removed-early", "mess/" + std::to_string(n) + " removed while info or todo still exists");
@@ -624,6 +635,7 @@ struct DaemonScenario : Scenario {
   void send_signal(World &w, int which) {
     Proc *p = proc(w, sendpid); if (!p) return;
     static const int sigs[] = {SIGTERM, SIGALRM, SIGHUP}; static const char *names[] = {"TERM", "ALRM", "HUP"};
+    if (which == 2 && hupedit) { config_b = !config_b; write_routing_controls(w); history += config_b ? " EDIT(far.example local, virt2.example virtual)" : " EDIT(back)"; w.counters["control_edits"]++; }
     w.raise_sig(*p, sigs[which]); history += std::string(" ") + names[which]; w.counters[std::string("signal_") + names[which]]++;
     if (which == 0) { term_sent = true; for (auto &kv : ledger) for (int c = 0; c < 2; c++) if (kv.second.pass_started[c] && !kv.second.gone && !kv.second.pass_eof[c]) kv.second.term_open_pass[c] = true; }
     if (which == 1) { alarm_since[0] = alarm_since[1] = true; for (auto &kv : ledger) { kv.second.earliest_next[0] = kv.second.earliest_next[1] = 0; } }
